@@ -388,7 +388,7 @@ func (e *c30Exec) step(i int) {
 		t.parked = ""
 		t.resume <- struct{}{}
 	}
-	guard := time.NewTimer(3 * time.Minute)
+	guard := time.NewTimer(90 * time.Second)
 	defer guard.Stop()
 	for again := true; again; {
 		again = false
